@@ -83,6 +83,7 @@ package basicnode
 //@   ensures[C01,C11] fresh(na.w.t) && fresh(na.w.m)
 
 //@ func (*plainMap__Assembler).AssembleEntry(k) (va, err)
+//@   rejects[C12] ma != nil && ma.state != maState_initial
 //@   requires wip(ma) && ma.state == maState_initial
 //@   assigns ma.state, ma.w.t, cells(ma.w.t), ma.va.ma
 //@   ensures[C12] indom(old(ma.w.m), k) ==> va == nil && iserr(err, "datamodel.ErrRepeatedMapKey") && ma.state == maState_initial && ma.w.t == old(ma.w.t) && wip(ma)
@@ -92,6 +93,7 @@ package basicnode
 //@   ensures[C11] ma.w == old(ma.w) && ma.w.m == old(ma.w.m)
 
 //@ func (*plainMap__Assembler).AssembleKey() (ka)
+//@   rejects[C12] ma != nil && ma.state != maState_initial
 //@   requires wip(ma) && ma.state == maState_initial
 //@   assigns ma.state, ma.ka.ma
 //@   returns ka *plainMap__KeyAssembler
@@ -99,6 +101,7 @@ package basicnode
 //@   ensures[C11] ma.w == old(ma.w) && ma.w.t == old(ma.w.t) && ma.w.m == old(ma.w.m)
 
 //@ func (*plainMap__Assembler).AssembleValue() (va)
+//@   rejects[C12] ma != nil && ma.state != maState_expectValue
 //@   requires wip(ma) && ma.state == maState_expectValue
 //@   assigns ma.state, ma.va.ma
 //@   returns va *plainMap__ValueAssembler
@@ -106,6 +109,7 @@ package basicnode
 //@   ensures[C11] ma.w == old(ma.w) && ma.w.t == old(ma.w.t) && ma.w.m == old(ma.w.m)
 
 //@ func (*plainMap__Assembler).Finish() (err)
+//@   rejects[C12] ma != nil && ma.state != maState_initial
 //@   requires wip(ma) && ma.state == maState_initial
 //@   assigns ma.state
 //@   ensures[C01,C12] err == nil && ma.state == maState_finished && mapinv(ma.w, len(ma.w.t))
@@ -157,6 +161,7 @@ package basicnode
 //@         && unbox(ma, "*plainMap__ValueAssemblerMap").ca.state == maState_initial && len(unbox(ma, "*plainMap__ValueAssemblerMap").ca.w.t) == 0 && fresh(unbox(ma, "*plainMap__ValueAssemblerMap").ca.w)
 
 //@ func (*plainMap__ValueAssemblerMap).Finish() (err)
+//@   rejects[C12] ma != nil && ma.ca.state != maState_initial
 //@   requires ma != nil && wip(&ma.ca) && ma.ca.state == maState_initial && wip(ma.p) && ma.p.state == maState_midValue && ma.p.va.ma == ma.p
 //@   requires ma.ca.w != ma.p.w && &ma.ca != ma.p && ma.ca.w.m != ma.p.w.m && root(ma.ca.w.t) != root(ma.p.w.t)
 //@   assigns ma.ca.state, ma.ca.w, ma.p.va.ma, ma.p.state, cells(ma.p.w.t), map(ma.p.w.m)
@@ -165,6 +170,7 @@ package basicnode
 //@   ensures[C11] ma.p.va.ma == nil
 
 //@ func (*plainMap__Assembler).AssignNode(v) (err)
+//@   rejects[C12] na != nil && na.state != maState_initial
 //@   requires na != nil && na.w != nil && na.state == maState_initial && v != nil
 //@   requires dyntype(v, "*plainMap") ==> unbox(v, "*plainMap") != nil
 //@   requires datamodel.vlen(v.val) <= 8796093022208
@@ -232,11 +238,13 @@ package basicnode
 //@   ensures[C01,C11] fresh(na.w.x)
 
 //@ func (*plainList__Assembler).AssembleValue() (va)
+//@   rejects[C12] la != nil && la.state != laState_initial
 //@   requires listwip(la) && la.state == laState_initial
 //@   assigns la.state, la.va.la
 //@   ensures[C01,C12] va == iface(&la.va) && la.va.la == la && la.state == laState_midValue && listwip(la) && la.w == old(la.w) && la.w.x == old(la.w.x)
 
 //@ func (*plainList__Assembler).Finish() (err)
+//@   rejects[C12] la != nil && la.state != laState_initial
 //@   requires listwip(la) && la.state == laState_initial
 //@   assigns la.state
 //@   ensures[C01,C12] err == nil && la.state == laState_finished
@@ -256,6 +264,7 @@ package basicnode
 //@   ensures[C01] dyntype(old(lva.la).w.x[len(old(lva.la).w.x)-1], "*plainInt") && *unbox(old(lva.la).w.x[len(old(lva.la).w.x)-1], "*plainInt") == v
 
 //@ func (*plainList__ValueAssemblerList).Finish() (err)
+//@   rejects[C12] la != nil && la.ca.state != laState_initial
 //@   requires la != nil && listwip(&la.ca) && la.ca.state == laState_initial && listwip(la.p) && la.p.state == laState_midValue && la.p.va.la == la.p && la.ca.w != la.p.w
 //@   assigns la.ca.state, la.ca.w, la.p.va.la, la.p.state, la.p.w.x, cells(la.p.w.x)
 //@   ensures[C01,C12] err == nil && la.ca.w == nil && la.ca.state == laState_finished && la.p.state == laState_initial && listwip(la.p)
